@@ -185,7 +185,17 @@ def global_state():
         "root logger (level, handlers, disable)": (logging.getLogger().level, len(logging.getLogger().handlers), logging.root.manager.disable),
         "non-daemon threads": sum(1 for t in threading.enumerate() if not t.daemon),
         "sys.stdout / sys.stderr objects": (id(sys.stdout), id(sys.stderr)),
+        "open file descriptors": _open_fds(),
     }
+
+
+def _open_fds():
+    import os
+
+    try:
+        return len(os.listdir("/proc/self/fd"))
+    except OSError:
+        return -1
 
 
 def state_diff(before, after):
